@@ -39,7 +39,7 @@ pub fn run(args: &Args, rep: &mut Report) {
     let thorough = args.str("tier", "quick") == "thorough";
     let mut rng = Rng::derive(seed, 0xC18, shard);
     let fat = *rng.pick(&[12u8, 16, 32]);
-    let vc = VolCfg { fat, bps: 512, spc: 1, nfats: 1, root_entries: if fat == 32 { 0 } else { 32 }, clusters: match fat { 12 => 100, 16 => 4100, _ => 65600 }, extra: 0, garbage: false, slack: 0 };
+    let vc = VolCfg { fat, bps: 512, spc: 1, nfats: 1, root_entries: if fat == 32 { 0 } else { 32 }, clusters: match fat { 12 => 100, 16 => 4100, _ => 65600 }, extra: 0, garbage: false, slack: 0, used_device: false };
     let (img, _) = make_volume(&vc).expect("volume");
     let dev = MonDev::new(img);
     dev.set_logging(false, false);
